@@ -74,6 +74,75 @@ def stepSim (rcvT sndT : Nat) (sm : Sim) (tok : String) : Sim :=
   | ["t", n] => { sm with now := sm.now + n.toNat?.getD 0 }
   | _ => sm
 
+/-- Histories with configuration requests (`ac`: a request carrying a hash and a configuration request — two handles come back
+for it; `cf`: a configuration request alone).  These handles are outside the Lean model; the property's sentences are judged on
+the implementation's output alone: a handle comes back at most once, the number of waiting handles is the number accepted and not
+yet handed back (one more while a pushed configuration waits), the pending count never exceeds it, and after the closing
+`t:1000` + runs everything has been handed back.  The verdict names the shape of the history. -/
+structure CState where
+  out : List Nat := []        -- indices of plain requests accepted and not yet handed back
+  nPlain : Nat := 0
+  confOut : Nat := 0          -- configuration handles accepted and not yet handed back
+  multi : Bool := false       -- a configuration request was accepted while another one was outstanding
+  sawAc : Bool := false
+  drain : Bool := false       -- the closing t:1000 has been seen and nothing was submitted / replied after it
+  lastW : Option Nat := none
+
+def confOracle (steps toks : List String) : Option String :=
+  let rec go (fuel : Nat) (steps toks : List String) (st : CState) : Option String × CState :=
+    match fuel with
+    | 0 => (none, st)
+    | fuel + 1 =>
+    match steps with
+    | [] => (none, st)
+    | sp :: more =>
+      let f := sp.splitOn ":"
+      let k := f.headD ""
+      if k == "net" then go fuel more toks st
+      else if k == "t" then go fuel more toks { st with drain := ((f.getD 1 "").toNat?.getD 0) ≥ 1000 }
+      else
+        match toks with
+        | [] => (some "short-impl-output", st)
+        | t :: tr =>
+          if k == "a" || k == "ac" || k == "cf" then
+            if t.startsWith "A0:" then
+              let st := { st with drain := false }
+              let st := if k == "cf" then st else { st with out := st.out ++ [st.nPlain], nPlain := st.nPlain + 1 }
+              let st := if k == "a" then st else
+                { st with multi := st.multi || st.confOut > 0, confOut := st.confOut + 1, sawAc := st.sawAc || k == "ac" }
+              go fuel more tr st
+            else go fuel more tr st
+          else if k == "srv" || k == "g" then go fuel more tr { st with drain := if k == "srv" then false else st.drain }
+          else if k == "run" then
+            match t.splitOn ":" with
+            | [_, idx, _, _, pn, wn] =>
+              let p := (pn.drop 1).toString.toNat?.getD 0
+              let w := (wn.drop 1).toString.toNat?.getD 0
+              let r : Option String × CState :=
+                if idx == "-" then (none, st)
+                else if idx == "-1" then (none, { st with confOut := st.confOut - 1 })
+                else match idx.toNat? with
+                  | some i => if st.out.contains i then (none, { st with out := st.out.filter (· != i) }) else (some "a-handle-handed-back-twice-or-never-accepted", st)
+                  | none => (some "unreadable-run-output", st)
+              match r with
+              | (some e, st') => (some e, st')
+              | (none, st') =>
+                let expect := st'.out.length + st'.confOut
+                if w != expect && w != expect + 1 then (some s!"waiting-count-{w}-differs-from-accepted-minus-handed-back-{expect}", st')
+                else if p > w then (some s!"pending-count-{p}-exceeds-the-number-of-waiting-handles-{w}", st')
+                else go fuel more tr { st' with lastW := some w }
+            | _ => (some "unreadable-run-output", st)
+          else go fuel more toks st
+  let (e, st) := go (steps.length + 1) steps toks {}
+  let e := match e with
+    | some x => some x
+    | none => if st.drain && st.lastW != some 0 && st.lastW != none then some s!"handles-never-handed-back-although-every-timeout-has-elapsed-(waiting={st.lastW.getD 0})" else none
+  e.map fun why =>
+    let shape := if st.multi then "a-configuration-request-accepted-while-another-one-is-outstanding"
+      else if st.sawAc && st.out.isEmpty && st.confOut > 0 && why.startsWith "handles-never" then "configuration-asked-for-together-with-a-request-and-never-answered"
+      else "other"
+    s!"{why} shape={shape}"
+
 def handle (inp out : String) : String :=
   match words inp with
   | ["hrecv", pieces] =>
@@ -86,6 +155,11 @@ def handle (inp out : String) : String :=
     match cache.toNat?, rcvT.toNat?, sndT.toNat? with
     | some c, some r, some sn =>
       let ow := words out
+      if (steps.splitOn ",").any (fun x => x == "ac" || x == "cf") then
+        (match confOracle (steps.splitOn ",") ow with
+         | some why => s!"specfail asyncc {why} "
+         | none => s!"ok asyncc:{((steps.splitOn ",").filter (fun x => x == "ac" || x == "cf" || x.startsWith "srv:")).map (fun x => (x.splitOn ":").getD 1 x) |>.eraseDups |> ",".intercalate}")
+      else
       let sm0 : Sim := { a := Async.init c, implS := ow.filter (·.startsWith "S") }
       let sm := (steps.splitOn ",").foldl (stepSim r sn) sm0
       let ms := if sm.toks.isEmpty then "-" else " ".intercalate sm.toks
